@@ -224,6 +224,10 @@ func (p *parent) account(r *ExecResult) {
 		o.WriteString(s.Name + "=" + s.Err + ";")
 	}
 	p.run.Outcome(o.String())
+	if os.Getenv("C12_DEBUG") != "" {
+		b, _ := json.Marshal(map[string]any{"case": r.Case, "conversation": r.Seq, "steps": r.Steps, "applied": r.Applied})
+		fmt.Fprintln(os.Stderr, "C12_DEBUG", string(b))
+	}
 	for _, v := range r.Viol {
 		p.cands = append(p.cands, candidate{Kind: v.Kind, Step: v.Step, Case: r.Case, Msg: v.Msg})
 	}
@@ -468,8 +472,11 @@ func main() {
 				bad = c.key() + ": no result"
 				break
 			}
+			if f := flowByName(c.Flow); f != nil && f.Hostile {
+				continue // a misbehaving flavour: errors from API calls are legitimate answers
+			}
 			for _, s := range r.Steps {
-				if !s.OK && !strings.HasPrefix(s.Name, "post-close/") {
+				if !s.OK && !strings.HasPrefix(s.Name, "post-close/") && bad == "" {
 					bad = fmt.Sprintf("%s: step %s failed: %s (conversation %v)", c.key(), s.Name, s.Err, r.Seq)
 				}
 			}
